@@ -669,4 +669,59 @@ example : CleanPath [47, 97, 112, 105, 47, 118, 49] := by decide   -- "/api/v1"
 example : ¬ CleanPath [47, 97, 112, 105, 47] := by decide   -- "/api/"
 
 
+/-! ### `Use` inside a group is local -/
+
+theorem scope_as_pre (sc : Scope) : sc = ({ sc with grp := [] } : Scope).pre sc.grp := by
+  simp [Scope.pre]
+
+theorem after_pre (outer inner : Scope) (g : List H) : outer.after (inner.pre g) = outer.after inner := by
+  simp [Scope.after, Scope.pre]
+
+/-- `Use` inside a group: the routes registered before it in the group are untouched, the routes
+    registered after it in the group get exactly `hs` inserted behind the group handlers in effect,
+    and the scope handed on after the group is the same as without the `Use`. -/
+theorem group_use_local (cfg : Cfg) (sc : Scope) (p : Bytes) (mws : List H) (b1 b2 : List Stmt) (hs : List H)
+    (hin : (enterScope cfg sc p mws).pfx ≠ []) :
+    let r1 := denList cfg (enterScope cfg sc p mws) b1
+    let base := denList cfg { r1.2 with grp := [] } b2
+    (den cfg sc (.group p mws (b1 ++ .use hs :: b2))).1 = r1.1 ++ base.1.map (Route.pre (r1.2.grp ++ hs)) ∧
+    (den cfg sc (.group p mws (b1 ++ b2))).1 = r1.1 ++ base.1.map (Route.pre r1.2.grp) ∧
+    (den cfg sc (.group p mws (b1 ++ .use hs :: b2))).2 = (den cfg sc (.group p mws (b1 ++ b2))).2 := by
+  intro r1 base
+  have hp : r1.2.pfx ≠ [] := by
+    show (denList cfg (enterScope cfg sc p mws) b1).2.pfx ≠ []
+    rw [denList_pfx]; exact hin
+  have huse : useScope r1.2 hs = ({ r1.2 with grp := [] } : Scope).pre (r1.2.grp ++ hs) := by
+    simp [useScope, hp, Scope.pre]
+  have hplain : r1.2 = ({ r1.2 with grp := [] } : Scope).pre r1.2.grp := scope_as_pre r1.2
+  have e1 : denList cfg (enterScope cfg sc p mws) (b1 ++ .use hs :: b2) =
+      (r1.1 ++ base.1.map (Route.pre (r1.2.grp ++ hs)), base.2.pre (r1.2.grp ++ hs)) := by
+    rw [denList_append]
+    simp only [denList, den, List.nil_append]
+    show (r1.1 ++ (denList cfg (useScope r1.2 hs) b2).1, (denList cfg (useScope r1.2 hs) b2).2) = _
+    rw [huse, denList_pre]
+  have e2 : denList cfg (enterScope cfg sc p mws) (b1 ++ b2) =
+      (r1.1 ++ base.1.map (Route.pre r1.2.grp), base.2.pre r1.2.grp) := by
+    have h2 : denList cfg r1.2 b2 = (base.1.map (Route.pre r1.2.grp), base.2.pre r1.2.grp) := by
+      have := denList_pre cfg r1.2.grp ({ r1.2 with grp := [] } : Scope) b2
+      rwa [← hplain] at this
+    rw [denList_append]
+    show (r1.1 ++ (denList cfg r1.2 b2).1, (denList cfg r1.2 b2).2) = _
+    rw [h2]
+  simp only [den]
+  rw [e1, e2]
+  simp [after_pre]
+
+
+/-! ### a list of plain route registrations -/
+
+theorem execList_routes (cfg : Cfg) : ∀ (ds : List RouteDef) (st : RS),
+    execList cfg st (ds.map Stmt.route) = addRoutes cfg st ds
+  | [], st => by simp [execList, addRoutes]
+  | d :: rest, st => by
+    simp only [List.map, execList, exec, addRoutes]
+    cases addRoute cfg st d with
+    | ok st1 => simp only; exact execList_routes cfg rest st1
+    | error e => rfl
+
 end Rux.Reg
